@@ -41,13 +41,32 @@ UNITS = {
     "C11": [
         {"name": "C11_INP", "test": "TestC11_INP", "quick": 500, "thorough": 6000, "shards": 16, "shrink": "60s"},
     ],
+    "C14": [
+        {"name": "C14_FN", "test": "TestC14_FN", "quick": 40000, "thorough": 800000, "shards": 8},
+    ],
+    "C15": [
+        {"name": "C15_FN", "test": "TestC15_FN", "quick": 10000, "thorough": 200000, "shards": 8},
+    ],
     "C16": [
         {"name": "C16_INP", "test": "TestC16_INP", "quick": 4000, "thorough": 40000, "shards": 12},
         {"name": "C16_BIN", "test": "TestC16_BIN", "quick": 60, "thorough": 400, "shards": 4, "bin": True},
     ],
+    "C19": [
+        {"name": "C19_MAP", "test": "TestC19_MAP", "quick": 8000, "thorough": 150000, "shards": 4},
+        {"name": "C19_BUILDER", "test": "TestC19_BUILDER", "quick": 4000, "thorough": 80000, "shards": 4},
+        {"name": "C19_TEMPLATE", "test": "TestC19_TEMPLATE", "quick": 3000, "thorough": 60000, "shards": 4},
+        {"name": "C19_PARSE", "test": "TestC19_PARSE", "quick": 8000, "thorough": 150000, "shards": 4},
+        {"name": "C19_FUZZ", "test": "FuzzRDPParse", "quick": 0, "thorough": 0, "shards": 1, "fuzz": True, "fuzztime_thorough": "120s", "exclusive": True},
+    ],
 }
 
 RULES = {
+    "C14": "case = (user database of 1-5 users incl. empty passwords, duplicates and names differing only in case; sequence of 1-10 operations negotiate / authenticate(session, named user, key user, key password, domain, challenge source) / replay / garbage / bad base64 over 4 sessions); "
+           "type-3 messages are built by the harness's own NTLMv2 implementation; non-trivial = a second attempt in a session, a proof keyed for another user, a foreign or stale challenge, or a replay",
+    "C15": "case = (key mode, user name, 1-4 requests: a member of the token family around a minted token - single-character/bit mutations of each of the five JWE segments, other keys/enc/alg/issuer, expiry offsets, the other mode's token, plain JWS, garbage - with method and parameter variations); "
+           "verdict from an independent A128CBC-HS256/dir (+DEF) decryption; non-trivial = the token is not pure garbage",
+    "C19": "cases = (a) maps of integer and string settings, (b) assignments of values to the RdpSettings fields by reflection, (c) templates rendered from such assignments with blank lines, comments and the b type letter, run through the download handler, "
+           "(d) byte strings assembled from well-formed and near-valid lines; values contain ':', non-ASCII text, lines up to 4 KiB; non-trivial = a value with ':' / non-ASCII / empty / long, or (d) at least one candidate line",
     "C07": "case = program of 1-16 (thorough: 1-64) concurrent tunnels (transport, user with own host 127.0.0.<user>, identifier style, set-up ok / other user's host / bad cookie, tagged traffic ops, ending) "
            "preceded by an optional first generation whose hosts hang up, plus a legacy pairing probe; non-trivial = at least two overlapping tunnels of which one fails or ends other than by close",
     "C09": "case = workload program: 2-12 concurrent clients (both transports, start offsets) each running a script of data bursts, host bursts, keep-alives, unknown packets and one ending (close / protocol error / FIN / RST, optionally while the host is still sending) "
